@@ -208,3 +208,111 @@ func init() {
 			Note: "largest and boundary-length group telegrams through the real socket layer (virtual connection)"})
 	}
 }
+
+// c12FullOutbound: "frames leaving the socket after GroupTunnel.Send". A group tunnel shares its
+// socket between the application's Send and the connection server, which acknowledges every
+// inbound telegram (and sends heartbeats and the disconnect request). One group write is sent
+// while a telegram from the bus arrives at the same instant, so that the two writers overlap in
+// every order the scheduler allows: the datagram that carries the request must be the L_Data
+// request of that event whatever else the client is writing.
+func c12FullOutbound() func() {
+	return func() {
+		w := vnet.Reset()
+		var ep *vnet.Endpoint
+		w.OnCreate = func(e *vnet.Endpoint) {
+			ep = e
+			e.OnWrite = func(wr vnet.WriteRec) {
+				mc.Log(Wrote{hex.EncodeToString(wr.Data)})
+				var v knxnet.Service
+				if _, err := knxnet.Unpack(wr.Data, &v); err != nil {
+					return
+				}
+				switch x := v.(type) {
+				case *knxnet.ConnReq:
+					e.Inject(pack(&knxnet.ConnRes{Channel: 7, Status: 0, Control: knxnet.HostInfo{Protocol: knxnet.UDP4}}), nil)
+				case *knxnet.TunnelReq:
+					e.Inject(pack(&knxnet.TunnelRes{Channel: x.Channel, SeqNumber: x.SeqNumber, Status: 0}), nil)
+				}
+			}
+		}
+		gt, err := knx.NewGroupTunnel("192.0.2.99:3671", TCfg(100, 350, 100000000))
+		if err != nil {
+			mc.Log(Note("connect failed: " + err.Error()))
+			return
+		}
+		mc.GoEnv("reader", func() {
+			for {
+				if _, ok := gt.Inbound().Recv2(); !ok {
+					return
+				}
+			}
+		})
+		n := []int{1, 3, 14}[mc.Choose(3, mc.Free)]
+		data := make([]byte, n)
+		for k := range data {
+			data[k] = byte(0x21 + k)
+		}
+		mc.Sleep(5 * ms)
+		ep.Inject(pack(&knxnet.TunnelReq{Channel: 7, SeqNumber: 0, Payload: c12FullFrame(0, c12Shape{2, 0})}), nil)
+		mc.Log(Injected{0, hex.EncodeToString(data)})
+		err = gt.Send(knx.GroupEvent{Command: knx.GroupWrite, Destination: cemi.GroupAddr(0x0A55), Data: data})
+		mc.Log(Ret{"Send", 0, errStr(err), mc.Now()})
+		mc.Sleep(20 * ms)
+		gt.Close()
+		mc.Sleep(1 * ms)
+	}
+}
+
+func c12FullOutboundOracle(tr *mc.Trace) []h.Violation {
+	vs := generic(tr, "C12", true)
+	bad := func(class, format string, a ...interface{}) {
+		vs = append(vs, h.Violation{Class: "C12:" + class, Msg: fmt.Sprintf(format, a...)})
+	}
+	want := ""
+	reqs := 0
+	for _, e := range tr.Log {
+		switch x := e.V.(type) {
+		case Note:
+			bad("fullstack-setup", "%s", string(x))
+		case Injected:
+			want = x.Hex
+		case Ret:
+			if x.Call == "Send" && x.Err != "" {
+				bad("fullstack-outbound-send-failed", "Send of the group write failed: %s", x.Err)
+			}
+		case Wrote:
+			b, _ := hex.DecodeString(x.Hex)
+			if len(b) < 6 || (int(b[4])<<8|int(b[5])) != len(b) {
+				bad("fullstack-outbound-frame-corrupt", "a datagram of %d octets left the socket whose header announces %d: %s", len(b), int(b[4])<<8|int(b[5]), x.Hex)
+				continue
+			}
+			var v knxnet.Service
+			if _, err := knxnet.Unpack(b, &v); err != nil {
+				bad("fullstack-outbound-frame-corrupt", "the client put %s on the wire, which is no frame: %v", x.Hex, err)
+				continue
+			}
+			req, ok := v.(*knxnet.TunnelReq)
+			if !ok {
+				continue
+			}
+			reqs++
+			ld, ok := req.Payload.(*cemi.LDataReq)
+			if !ok {
+				bad("fullstack-outbound-frame-differs", "the tunnelling request on the wire carries %T, want an L_Data request: %s", req.Payload, x.Hex)
+				continue
+			}
+			app, _ := ld.Data.(*cemi.AppData)
+			if app == nil || !ld.Control2.IsGroupAddr() || ld.Destination != 0x0A55 || app.Command != cemi.GroupValueWrite || hex.EncodeToString(app.Data) != want {
+				bad("fullstack-outbound-frame-differs", "group write to 0x0a55 with payload %s was sent; the tunnelling request on the wire is %s (%+v)", want, x.Hex, ld)
+			}
+		}
+	}
+	if tr.Reason == "main-returned" && reqs != 1 {
+		bad("fullstack-outbound-count", "%d tunnelling requests left the socket for one group write that was acknowledged at once", reqs)
+	}
+	return vs
+}
+
+func init() {
+	register("both", &h.Scenario{Name: "C12-fullstack-outbound-while-acknowledging", Prop: "C12", P: 2, F: 0, D: 4, Run: c12FullOutbound(), Check: c12FullOutboundOracle})
+}
